@@ -74,6 +74,83 @@ class Fl:
         return "Fl(%s)" % self.t
 
 
+class FlQ(Fl):
+    """A float known to be the exact rational num/den (den a positive Python
+    int constant): lets round/floor/ceil/compare be stated in linear integer
+    arithmetic (div/mod by the constant den)."""
+    __slots__ = ("num", "den")
+
+    def __init__(self, num, den):
+        self.num = num if is_z3(num) else z3.IntVal(num)
+        self.den = den
+        self.t = z3.ToReal(self.num) / z3.RealVal(den) if den != 1 else z3.ToReal(self.num)
+
+    def __repr__(self):
+        return "FlQ(%s/%d)" % (self.num, self.den)
+
+
+def fl_floor(v):
+    if isinstance(v, FlQ):
+        return v.num / z3.IntVal(v.den)
+    return r_floor(v.t)
+
+
+def fl_ceil(v):
+    if isinstance(v, FlQ):
+        return -((-v.num) / z3.IntVal(v.den))
+    return r_ceil(v.t)
+
+
+def fl_trunc(v):
+    if isinstance(v, FlQ):
+        return z3.If(v.num >= 0, v.num / z3.IntVal(v.den), -((-v.num) / z3.IntVal(v.den)))
+    return r_trunc(v.t)
+
+
+def fl_round(v):
+    if isinstance(v, FlQ):
+        d = z3.IntVal(v.den)
+        f = v.num / d
+        r2 = 2 * (v.num % d)
+        return z3.If(r2 < d, f, z3.If(r2 > d, f + 1, z3.If(f % 2 == 0, f, f + 1)))
+    return r_round_half_even(v.t)
+
+
+def fl_abs(v):
+    if isinstance(v, FlQ):
+        return FlQ(z3.If(v.num >= 0, v.num, -v.num), v.den)
+    return Fl(z3.If(v.t >= 0, v.t, -v.t))
+
+
+def fl_sub_int(v, k):
+    """FlQ minus an integer, as an exact rational."""
+    return FlQ(v.num - I(k) * v.den, v.den)
+
+
+def fl_cmp(op, a, b):
+    """a <op> b for numeric a, b where at least one is an FlQ and the other an
+    FlQ, an int, or a concrete rational constant: cross-multiplied integers."""
+    import fractions
+
+    def parts(x):
+        if isinstance(x, FlQ):
+            return x.num, x.den
+        if isinstance(x, Fl):
+            s_ = z3.simplify(x.t)
+            if z3.is_rational_value(s_):
+                return z3.IntVal(s_.numerator_as_long()), s_.denominator_as_long()
+            return None
+        if is_int(x):
+            return I(x), 1
+        return None
+    pa, pb = parts(a), parts(b)
+    if pa is None or pb is None:
+        return None
+    l = pa[0] * pb[1]
+    r = pb[0] * pa[1]
+    return {"<": l < r, "<=": l <= r, ">": l > r, ">=": l >= r, "==": l == r}[op]
+
+
 def R(x):
     """numeric value -> z3 Real"""
     if isinstance(x, Fl):
